@@ -663,7 +663,7 @@ def gen_auer_offsets(rng, tier):
     m = 2
     n = rng.randint(2, 4)
     conf = rng.choice([1, 1, 2])
-    eps = rng.choice([1.0, 2.0, 0.5])
+    eps = rng.choice([1.0, 2.0, 4.0])
     style = rng.choice(["objective", "design"])
     base = [rng.randint(-2, 2) * 0.5 for _ in range(m)]
     Y = [[b + k * eps * rng.choice([0.5, 1.25, 1.0 + 2.0 ** -6, 2.0]) for b in base] for k in range(n)]
@@ -723,10 +723,10 @@ class D6Adversary(Adversary):
 def gen(ctx):
     rng = ctx.rng
     # the hand-built histories d6_case(0/1), auer_minwidth_case(), auer_position_case() live in corpus/C01/
-    for _ in range(ctx.n(30, 1500)):
+    for _ in range(ctx.n(30, 700)):
         yield gen_auer_offsets(rng, ctx.tier)
     # structured sweep first: every algorithm × a few shapes
-    total = ctx.n(64, 1500)
+    total = ctx.n(64, 1200)
     k = 0
     shapes = ["eps-boundary", "front", "ties", "chain", "near-incomparable", "random"]
     for alg in ALL_ALGS:
